@@ -175,6 +175,19 @@ def gen_cases(seed, chunk, n, tier):
 
     rng = random.Random(seed * 7919 + chunk * 104729 + 1)
     out = [twin_case(rng) for _ in range(max(1, n // 8))]
+    from .c05 import depth2_case
+    for _ in range(max(1, n // 8)):
+        fermi_ = rng.random() < 0.5
+        it, env2_, steps_ = depth2_case(rng, fermi=fermi_, with_conj=True, dagger=rng.random() < 0.3)
+        produced = []
+        for st in steps_:
+            v = env2_.get(st["out"][0])
+            if isinstance(v, sr.AbelianArray):
+                produced.append((st["out"][0], st["op"], ser.enc_array(v, data=False), oracle.py_valid(v),
+                                 len(v.blocks), []))
+        it = dict(it, oracle=None, produced=produced, floaty=False, op="program",
+                  meta=dict(sym=it["meta"]["sym"], fermi=fermi_, static=it["meta"]["static"], nsteps=len(steps_), floaty=False))
+        out.append(it)
     for _ in range(n):
         sym = rng.choice(gen.SYMS)
         fermi = rng.random() < 0.5
